@@ -1821,7 +1821,7 @@ pub fn shrink(g: &GS, keep_first: bool, budget: usize, pred: &mut dyn FnMut(&GS)
 
 use std::collections::BTreeSet;
 
-pub struct Tags(pub BTreeSet<String>);
+pub struct Tags(pub BTreeSet<String>, pub Vec<String>, pub String, pub usize);
 
 impl Tags {
   fn add(&mut self, s: &str) {
@@ -1862,8 +1862,12 @@ impl Tags {
     if !a.is_empty() {
       self.add("generic.args");
     }
+    self.3 += 1;
     for x in a {
       self.t1(x);
+    }
+    if !a.is_empty() || true {
+      self.3 -= 1;
     }
   }
   fn tagc(&mut self, c: &Option<GTagC>, what: &str) {
@@ -1879,6 +1883,12 @@ impl Tags {
       GType2::Name(n, a) => {
         if n.starts_with('$') {
           self.add("socket.ref");
+        }
+        if *n == self.2 {
+          self.add("rule.recursive");
+        }
+        if self.3 > 0 && self.1.contains(n) {
+          self.add("generic.arg.forwarded-param");
         }
         if PRELUDE_ALL.contains(&n.as_str()) && n != "any" {
           self.add(&format!("pre.{}", n));
@@ -2006,8 +2016,10 @@ impl Tags {
 }
 
 pub fn tags(g: &GS) -> BTreeSet<String> {
-  let mut t = Tags(BTreeSet::new());
+  let mut t = Tags(BTreeSet::new(), vec![], String::new(), 0);
   for r in &g.rules {
+    t.1 = r.params.clone();
+    t.2 = r.name.clone();
     if !r.params.is_empty() {
       t.add("generic.params");
     }
@@ -2105,4 +2117,84 @@ pub fn rewrite(g: &GS, t2: &mut dyn FnMut(&mut GType2), t1: &mut dyn FnMut(&mut 
   let mut c = g.clone();
   VisitMut { t2, t1, entry }.gs(&mut c);
   c
+}
+
+// ---------------------------------------------------------------------------
+// well-formedness of references (validation workloads never judge ill-formed schemas)
+
+/// every reference resolves to a rule of the right kind with the right number of generic
+/// arguments, a generic parameter in scope, a prelude name or a socket
+pub fn wellformed(g: &GS) -> bool {
+  use std::collections::BTreeMap;
+  let mut types: BTreeMap<&str, usize> = BTreeMap::new();
+  let mut groups: BTreeMap<&str, usize> = BTreeMap::new();
+  for r in &g.rules {
+    match r.body {
+      GBody::Type(_) => {
+        if let Some(a) = types.get(r.name.as_str()) {
+          if *a != r.params.len() {
+            return false;
+          }
+        }
+        types.insert(&r.name, r.params.len());
+      }
+      GBody::Group(_) => {
+        if let Some(a) = groups.get(r.name.as_str()) {
+          if *a != r.params.len() {
+            return false;
+          }
+        }
+        groups.insert(&r.name, r.params.len());
+      }
+    }
+  }
+  for r in &g.rules {
+    if types.contains_key(r.name.as_str()) && groups.contains_key(r.name.as_str()) {
+      return false;
+    }
+  }
+  let ok = std::cell::Cell::new(true);
+  for r in &g.rules {
+    let params = r.params.clone();
+    let mut one = GS { rules: vec![r.clone()] };
+    let chk_type = |n: &str, nargs: usize| {
+      if params.iter().any(|p| p == n) {
+        return nargs == 0;
+      }
+      if let Some(a) = types.get(n) {
+        return *a == nargs;
+      }
+      if groups.contains_key(n) {
+        return false;
+      }
+      n.starts_with('$') || (nargs == 0 && PRELUDE_ALL.contains(&n))
+    };
+    let chk_group = |n: &str, nargs: usize| groups.get(n).map(|a| *a == nargs).unwrap_or(n.starts_with("$$"));
+    {
+      let mut t2 = |t: &mut GType2| match t {
+        GType2::Name(n, a) | GType2::Unwrap(n, a) => {
+          if !chk_type(n, a.len()) {
+            ok.set(false);
+          }
+        }
+        GType2::EnumName(n, a) => {
+          if !chk_group(n, a.len()) {
+            ok.set(false);
+          }
+        }
+        _ => {}
+      };
+      let mut t1f = |_: &mut GType1| {};
+      let mut en = |e: &mut GEntry| {
+        if let GEntry::Name { name, args, .. } = e {
+          if !(chk_group(name, args.len()) || chk_type(name, args.len())) {
+            ok.set(false);
+          }
+        }
+      };
+      VisitMut { t2: &mut t2, t1: &mut t1f, entry: &mut en }.gs(&mut one);
+    }
+    // a keyless entry whose type is a lone group name is a group reference: allowed (handled by the walkers as a Name)
+  }
+  ok.get()
 }
